@@ -49,9 +49,21 @@ func TestC18(t *testing.T) { pbt.Check(t, "C18", genC18, runC18) }
 // ---- generator ----------------------------------------------------------------------------------------
 
 type opw struct {
-	rt  *rapid.T
-	c   *c18Case
-	ops []op
+	rt      *rapid.T
+	c       *c18Case
+	ops     []op
+	focused bool // inside a constructed transition: prefer execution times that leave room for the protocol
+	starve  bool // this segment registers nonce pairs only for the genesis current group's members
+}
+
+// nonce pairs for everybody, or only for the members of the genesis current group (then members that exist
+// only in the incoming group cannot be assigned)
+func (g *opw) desall(n int) op {
+	o := op{K: "desall", B: n}
+	if g.starve || gen.Chance(g.rt, "desCurOnly", 1, 6) {
+		o.Mask = 1<<uint(g.c.CurN) - 1
+	}
+	return o
 }
 
 func (g *opw) emit(o ...op) { g.ops = append(g.ops, o...) }
@@ -73,7 +85,11 @@ func (g *opw) memberMask() uint32 {
 // offset of ExecTime relative to the end of the voting period
 func (g *opw) execOffset(need int) int {
 	rt, c := g.rt, g.c
-	switch gen.Pick(rt, "offmode", 6, 2, 2) {
+	wTarget := 4
+	if g.focused {
+		wTarget = 20
+	}
+	switch gen.Pick(rt, "offmode", wTarget, 3, 2) {
 	case 0: // room for `need` one-second blocks, clipped into the window
 		off := need + gen.Range(rt, "slack", 0, 3)
 		if off > c.Max {
@@ -135,11 +151,16 @@ func (g *opw) end(onExec bool) {
 // transition through a new group: proposal, three DKG rounds, hand-over signing, waiting, execution
 func (g *opw) transitionSegment() {
 	rt := g.rt
-	if gen.Chance(rt, "predes", 3, 4) {
-		g.emit(op{K: "desall", B: gen.Range(rt, "nde", 1, 3)}, op{K: "end", A: 1})
+	if gen.Chance(rt, "preact", 3, 4) {
+		g.emit(op{K: "actall"})
 	}
+	if gen.Chance(rt, "predes", 3, 4) {
+		g.emit(g.desall(gen.Range(rt, "nde", 1, 3)), op{K: "end", A: 1})
+	}
+	g.focused = true
+	defer func() { g.focused = false }()
 	// which milestone falls onto the execution time: 0 none, 1..3 DKG round, 4 hand-over signing, 5 proposal
-	target := gen.Pick(rt, "target", 3, 1, 1, 4, 4, 2)
+	target := gen.Pick(rt, "target", 3, 1, 1, 5, 5, 1)
 	need := []int{7, 2, 3, 4, 5, 1}[target]
 	if target == 5 {
 		g.emit(op{K: "propT", Mask: g.memberMask(), A: gen.Uniform(rt, "thr", 4), B: g.c.Min + gen.OneOf(rt, "p5", 0, 0, 1)})
@@ -178,8 +199,8 @@ func (g *opw) transitionSegment() {
 		}
 		g.end(target == r)
 	}
-	if gen.Chance(rt, "postdes", 3, 4) { // nonce pairs for the new members, so that the incoming group can sign
-		g.emit(op{K: "desall", B: gen.Range(rt, "nde", 0, 2)})
+	if gen.Chance(rt, "postdes", 2, 3) { // nonce pairs for the new members, so that the incoming group can sign
+		g.emit(g.desall(gen.Range(rt, "nde", 0, 2)))
 	}
 	g.noise(1, 10)
 	switch gen.Pick(rt, "signv", 12, 2, 2, 2) {
@@ -195,8 +216,12 @@ func (g *opw) transitionSegment() {
 	for i, n := 0, gen.Range(rt, "waitn", 0, 2); i < n; i++ {
 		g.noise(1, 3)
 		g.emit(op{K: "req", A: gen.Uniform(rt, "u", nReq), B: gen.Pick(rt, "feev", 5, 2, 1)})
-		if gen.Chance(rt, "wsign", 1, 2) {
-			g.emit(op{K: "sign", A: gen.Uniform(rt, "s", 4), Mask: 0xff})
+		if gen.Chance(rt, "wsign", 2, 3) {
+			// the request's signings exist from the next block on: newest first (the incoming group's, if any)
+			g.emit(op{K: "end", A: 1}, op{K: "sign", A: 0, Mask: 0xff})
+			if gen.Chance(rt, "wsign2", 2, 3) {
+				g.emit(op{K: "sign", A: gen.Range(rt, "s", 1, 3), Mask: 0xff})
+			}
 		}
 		g.emit(op{K: "end", A: 1})
 	}
@@ -208,7 +233,7 @@ func (g *opw) transitionSegment() {
 func (g *opw) forceSegment() {
 	rt := g.rt
 	if gen.Chance(rt, "predes", 2, 3) {
-		g.emit(op{K: "desall", B: gen.Range(rt, "nde", 1, 3)}, op{K: "end", A: 1})
+		g.emit(g.desall(gen.Range(rt, "nde", 1, 3)), op{K: "end", A: 1})
 	}
 	off := g.execOffset(gen.Range(rt, "fneed", 1, 4))
 	if gen.Chance(rt, "fmin", 1, 2) {
@@ -224,8 +249,12 @@ func (g *opw) forceSegment() {
 	for i, n := 0, gen.Range(rt, "waitn", 0, 2); i < n; i++ {
 		g.noise(1, 3)
 		g.emit(op{K: "req", A: gen.Uniform(rt, "u", nReq), B: gen.Pick(rt, "feev", 5, 2, 1)})
-		if gen.Chance(rt, "wsign", 1, 2) {
-			g.emit(op{K: "sign", A: gen.Uniform(rt, "s", 4), Mask: 0xff})
+		if gen.Chance(rt, "wsign", 2, 3) {
+			// the request's signings exist from the next block on: newest first (the incoming group's, if any)
+			g.emit(op{K: "end", A: 1}, op{K: "sign", A: 0, Mask: 0xff})
+			if gen.Chance(rt, "wsign2", 2, 3) {
+				g.emit(op{K: "sign", A: gen.Range(rt, "s", 1, 3), Mask: 0xff})
+			}
 		}
 		g.emit(op{K: "end", A: 1})
 	}
@@ -253,7 +282,7 @@ func genC18(rt *rapid.T) c18Case {
 	c.ExtraN = gen.Range(rt, "extran", 2, 3)
 	c.ExtraT = gen.Range(rt, "extrat", 1, c.ExtraN)
 	c.Min = gen.OneOf(rt, "min", 1, 1, 2, 3)
-	c.Max = c.Min + gen.OneOf(rt, "maxd", 0, 3, 6, 9, 9, 12)
+	c.Max = c.Min + gen.OneOf(rt, "maxd", 0, 5, 8, 8, 10, 12, 12)
 	c.Creation = gen.Range(rt, "creation", 4, 9)
 	c.SignPeriod = gen.Range(rt, "signp", 1, 3)
 	c.MaxAttempt = gen.OneOf(rt, "maxatt", 1, 2, 3)
@@ -264,6 +293,7 @@ func genC18(rt *rapid.T) c18Case {
 	g := &opw{rt: rt, c: &c}
 	nseg := rapid.IntRange(1, 3).Draw(rt, "nseg")
 	for i := 0; i < nseg; i++ {
+		g.starve = gen.Chance(rt, "starve", 1, 4)
 		switch gen.Pick(rt, "seg", 6, 3, 1) {
 		case 0:
 			g.transitionSegment()
@@ -307,8 +337,9 @@ func runC18(c c18Case) *pbt.Verdict {
 	}
 	if v.Violation == "" && !w.stopped {
 		// let everything that is due happen: open proposals, the open transition, pending time-outs
-		for i := 0; i < 3 && v.Violation == ""; i++ {
-			w.flush(op{K: "end", A: 1})
+		tail := []op{{K: "endv"}, {K: "endv"}, {K: "end", A: 1}, {K: "endx"}, {K: "end", A: 1}, {K: "end", A: 1}}
+		for i := 0; i < len(tail) && v.Violation == "" && !w.stopped; i++ {
+			w.flush(tail[i])
 		}
 	}
 	w.finish()
